@@ -380,4 +380,175 @@ theorem createInst_linkInv (s : State) (c fid : Nat) (hi : LinkInv s) (hc : s.fl
     · subst e; rfl
     · exact hi.mainRoot v f hv0 hm
 
+
+/-! ### `_start_flow`: the link of a created instance to its parent, on the abstract state.
+  Only the Lifetime side is done (`linkInst`, its invariants, and `linkInst_eq_mods`: the four record updates of `_start_flow` in code
+  order ARE `linkInst`); the CoreVM side (`CoreVM.startFlow` = those four updates on `absVM`) is NOT proved. -/
+
+/-- `flow_state.parent_uid = p; parent.child_flow_uids.append(c); flow_state.activated = k` -/
+def linkInst (s : State) (c p k : Nat) : State :=
+  match s.flows c, s.flows p with
+  | some cf, some pf =>
+    setFlow (setFlow s c { cf with parent := some p, activated := k }) p { pf with children := pf.children ++ [c] }
+  | _, _ => s
+
+theorem linkInst_recs (t : State) (c p k : Nat) (cf pf : Flow) (hc : t.flows c = some cf) (hp : t.flows p = some pf) (hcp : c ≠ p) :
+    ∀ v g, (linkInst t c p k).flows v = some g →
+      (v = c ∧ g = { cf with parent := some p, activated := k }) ∨
+      (v ≠ c ∧ ∃ g0, t.flows v = some g0 ∧ g0.flowId = g.flowId ∧ g0.parent = g.parent ∧ g0.isMain = g.isMain ∧
+        g0.status = g.status ∧ g0.activated = g.activated ∧ (∀ x, x ∈ g0.children → x ∈ g.children) ∧
+        (∀ x, x ∈ g.children → x ∈ g0.children ∨ (v = p ∧ x = c))) := by
+  have hpc : p ≠ c := fun e => hcp e.symm
+  intro v g hv
+  simp only [linkInst, hc, hp] at hv
+  rw [setFlow_flows] at hv
+  split at hv
+  · next e =>
+    subst e; cases hv
+    refine Or.inr ⟨hpc, pf, hp, rfl, rfl, rfl, rfl, rfl, fun x hx => List.mem_append_left _ hx, ?_⟩
+    intro x hx
+    rcases List.mem_append.1 hx with h | h
+    · exact Or.inl h
+    · simp at h; exact Or.inr ⟨rfl, h⟩
+  · rw [setFlow_flows] at hv
+    split at hv
+    · next e => subst e; cases hv; exact Or.inl ⟨rfl, rfl⟩
+    · next e => exact Or.inr ⟨e, g, hv, rfl, rfl, rfl, rfl, rfl, fun x hx => hx, fun x hx => Or.inl hx⟩
+
+theorem linkInst_flowInv (t : State) (c p k : Nat) (cf pf : Flow) (hi : FlowInv t) (hc : t.flows c = some cf)
+    (hp : t.flows p = some pf) (hch : cf.children = []) (hm : cf.isMain = false) (hun : unlisted t c = true) (hcp : c ≠ p)
+    (hg : pf.status.listening = true ∨ 0 < k) : FlowInv (linkInst t c p k) := by
+  have hpc : p ≠ c := fun e => hcp e.symm
+  have recs := linkInst_recs t c p k cf pf hc hp hcp
+  have only_p : ∀ q qf, (linkInst t c p k).flows q = some qf → c ∈ qf.children → q = p := by
+    intro q qf hq hcq
+    rcases recs q qf hq with ⟨_, e⟩ | ⟨_, q0, a1, _, _, _, _, _, _, a7⟩
+    · subst e; simp [hch] at hcq
+    · rcases a7 c hcq with h | ⟨h, _⟩
+      · exact absurd h (unlisted_spec t c hun q q0 (hi.dom q q0 a1) a1)
+      · exact h
+  refine ⟨?_, ?_, ?_, ?_, ?_⟩
+  · intro q qf x xf hq hx hxf he ha hl
+    rcases recs x xf hxf with ⟨e1, e2⟩ | ⟨hxc, x0, b1, _, _, _, b5, b6, _, _⟩
+    · subst e1
+      have := only_p q qf hq hx
+      subst this
+      rcases recs q qf hq with ⟨e, _⟩ | ⟨_, q0, a1, _, _, _, a5, _, _, _⟩
+      · exact absurd e hpc
+      · rw [hp] at a1; cases a1
+        subst e2
+        simp at ha
+        rcases hg with h | h
+        · left; rw [← a5]; exact h
+        · omega
+    · rcases recs q qf hq with ⟨_, e⟩ | ⟨_, q0, a1, _, _, _, a5, _, _, a7⟩
+      · subst e; simp [hch] at hx
+      · rcases a7 x hx with h | ⟨_, h⟩
+        · rw [← a5]; exact hi.dc q q0 x x0 a1 h b1 he (by rw [b6]; exact ha) (by rw [b5]; exact hl)
+        · exact absurd h hxc
+  · intro q qf x xf hq hx hxf hid
+    rcases recs x xf hxf with ⟨e1, e2⟩ | ⟨hxc, x0, b1, b2, b3, _, _, _, _, _⟩
+    · subst e1
+      have := only_p q qf hq hx
+      subst this; subst e2; rfl
+    · rcases recs q qf hq with ⟨_, e⟩ | ⟨_, q0, a1, a2, _, _, _, _, _, a7⟩
+      · subst e; simp [hch] at hx
+      · rcases a7 x hx with h | ⟨_, h⟩
+        · rw [← b3]; exact hi.sfc q q0 x x0 a1 h b1 (by rw [b2, a2]; exact hid)
+        · exact absurd h hxc
+  · intro q qf x xf hq hx hxf
+    rcases recs x xf hxf with ⟨_, e2⟩ | ⟨hxc, x0, b1, _, _, b4, _, _, _, _⟩
+    · subst e2; exact hm
+    · rcases recs q qf hq with ⟨_, e⟩ | ⟨_, q0, a1, _, _, _, _, _, _, a7⟩
+      · subst e; simp [hch] at hx
+      · rcases a7 x hx with h | ⟨_, h⟩
+        · rw [← b4]; exact hi.noMainChild q q0 x x0 a1 h b1
+        · exact absurd h hxc
+  · intro v g hv hmain
+    rcases recs v g hv with ⟨_, e⟩ | ⟨_, g0, a1, _, a3, a4, _, _, _, _⟩
+    · subst e; simp [hm] at hmain
+    · rw [← a3]; exact hi.mainRoot v g0 a1 (by rw [a4]; exact hmain)
+  · intro v g hv
+    have ho : (linkInst t c p k).order = t.order := by simp only [linkInst, hc, hp]; rfl
+    rw [ho]
+    rcases recs v g hv with ⟨e, _⟩ | ⟨_, g0, a1, _⟩
+    · subst e; exact hi.dom v cf hc
+    · exact hi.dom v g0 a1
+
+theorem linkInst_linkInv (t : State) (c p k : Nat) (cf pf : Flow) (hi : LinkInv t) (hc : t.flows c = some cf)
+    (hp : t.flows p = some pf) (hch : cf.children = []) (hm : cf.isMain = false) (hcp : c ≠ p) : LinkInv (linkInst t c p k) := by
+  have recs := linkInst_recs t c p k cf pf hc hp hcp
+  have fwd : ∀ v g0, t.flows v = some g0 → ∃ g, (linkInst t c p k).flows v = some g := by
+    intro v g0 hv
+    simp only [linkInst, hc, hp, setFlow_flows]
+    split
+    · exact ⟨_, rfl⟩
+    · split
+      · exact ⟨_, rfl⟩
+      · exact ⟨g0, hv⟩
+  refine ⟨?_, ?_, ?_⟩
+  · intro c' cf' p' pf' hc' hl hpar hpf'
+    rcases recs c' cf' hc' with ⟨e1, e2⟩ | ⟨hne, g0, a1, _, a3, _, a5, _, _, _⟩
+    · rw [e2] at hpar
+      simp only [Option.some.injEq] at hpar
+      have hpf2 : (linkInst t c p k).flows p = some { pf with children := pf.children ++ [c] } := by
+        simp only [linkInst, hc, hp, setFlow_flows, if_true]
+      rw [← hpar, hpf2] at hpf'
+      cases hpf'
+      rw [e1]; simp
+    · rcases recs p' pf' hpf' with ⟨e1, e2⟩ | ⟨_, q0, b1, _, _, _, _, _, b6, _⟩
+      · subst e1
+        -- `c'` would have been a child of the isolated `c`
+        have := hi.linked c' g0 p' cf a1 (by rw [a5]; exact hl) (by rw [a3]; exact hpar) hc
+        rw [hch] at this; cases this
+      · exact b6 c' (hi.linked c' g0 p' q0 a1 (by rw [a5]; exact hl) (by rw [a3]; exact hpar) b1)
+  · intro c' cf' p' hc' hpar
+    rcases recs c' cf' hc' with ⟨e1, e2⟩ | ⟨hne, g0, a1, _, a3, _, _, _, _, _⟩
+    · rw [e2] at hpar
+      simp only [Option.some.injEq] at hpar
+      rw [← hpar]
+      exact fwd _ pf hp
+    · obtain ⟨q0, hq0⟩ := hi.parentLive c' g0 p' a1 (by rw [a3]; exact hpar)
+      exact fwd p' q0 hq0
+  · intro v g hv hmain
+    rcases recs v g hv with ⟨_, e⟩ | ⟨_, g0, a1, _, a3, a4, _, _, _, _⟩
+    · subst e; simp [hm] at hmain
+    · rw [← a3]; exact hi.mainRoot v g0 a1 (by rw [a4]; exact hmain)
+
+
+theorem modFlow_flows (s : State) (u : Nat) (g : Flow → Flow) (v : Nat) :
+    (modFlow s u g).flows v = if v = u then (s.flows u).map g else s.flows v := by
+  unfold modFlow
+  cases h : s.flows u with
+  | none =>
+    simp only [Option.map_none]
+    split
+    · next e => rw [e]; exact h
+    · rfl
+  | some f => simp only [setFlow_flows, Option.map_some]
+
+theorem modFlow_rest (s : State) (u : Nat) (g : Flow → Flow) :
+    (modFlow s u g).actions = s.actions ∧ (modFlow s u g).order = s.order ∧ (modFlow s u g).queue = s.queue ∧
+      (modFlow s u g).out = s.out ∧ (modFlow s u g).busy = s.busy := by
+  unfold modFlow; split <;> exact ⟨rfl, rfl, rfl, rfl, rfl⟩
+
+/-- the four record updates of `_start_flow`, in the order of the code, ARE `linkInst` -/
+theorem linkInst_eq_mods (s : State) (c p k : Nat) (cf pf : Flow) (hc : s.flows c = some cf) (hp : s.flows p = some pf) (hcp : c ≠ p) :
+    modFlow (modFlow (modFlow (modFlow s c fun f => { f with parent := some p }) p fun f => { f with children := f.children ++ [c] })
+      c fun f => f) c (fun f => { f with activated := k }) = linkInst s c p k := by
+  have hpc : p ≠ c := fun e => hcp e.symm
+  apply state_ext
+  · funext v
+    simp only [modFlow_flows, linkInst, hc, hp, setFlow_flows]
+    by_cases hv : v = c
+    · subst hv
+      simp only [if_true, hcp, if_false, hc, Option.map_some]
+    · by_cases hv2 : v = p
+      · subst hv2
+        simp only [hv, if_false, if_true, hpc, hp, Option.map_some]
+      · simp only [hv, hv2, if_false]
+  all_goals simp only [linkInst, hc, hp, (modFlow_rest _ _ _).1, (modFlow_rest _ _ _).2.1, (modFlow_rest _ _ _).2.2.1,
+      (modFlow_rest _ _ _).2.2.2.1, (modFlow_rest _ _ _).2.2.2.2] <;> rfl
+
+
 end NemoVerif.Lifetime.Refine
